@@ -649,6 +649,13 @@ type raceRep struct {
 
 var raceHangs int
 
+func genRule(prop string) string {
+	if prop == "C13" {
+		return "every unordered pair over the per-type alphabets of multi-key commands and single-key partners on the key triple (k0, k1 same stripe, k2 other shard), one command per thread, from each seed state (pairs.go); linearizability + final state when both commands are of the atomic classes, else deadlock / panic / invariants"
+	}
+	return "every unordered pair of the per-type single-key alphabets (pairs.go), one command per thread on the same key, from each seed state; pairs of two read-only commands skipped; plus BLPOP against every list mutator"
+}
+
 // scMatches: the scenarios of a property.  C09 ("each element goes to exactly one popper", lists under
 // concurrent clients) borrows the generated list and blocking-pop pairs of C05.
 func scMatches(sc *Scenario, prop string) bool {
@@ -679,7 +686,11 @@ func runRace(prop string, reps int, rep *ev.Report) (runs int, reports int, ok b
 	}
 	if nGen > 0 {
 		// the generated pairs run in one subprocess, a few repetitions each
-		list = append(list, &Scenario{ID: "pair:*", Prop: prop, Gen: true})
+		gp := "pair:*"
+		if prop == "C13" {
+			gp = "mpair:*"
+		}
+		list = append(list, &Scenario{ID: gp, Prop: prop, Gen: true})
 	}
 	for _, sc := range list {
 		n := reps
@@ -848,7 +859,7 @@ func main() {
 			if !r.Complete {
 				truncated++
 			}
-			if strings.HasPrefix(t.Scenario, "pair:") {
+			if strings.HasPrefix(t.Scenario, "pair:") || strings.HasPrefix(t.Scenario, "mpair:") {
 				genScen++
 				genSched += r.Schedules
 				if r.Outcomes > 1 {
@@ -889,7 +900,7 @@ func main() {
 		"preemption_bound":      bound,
 		"per_scenario":          perScenario,
 		"non_colliding":         nonColliding,
-		"generated_pairs":       map[string]interface{}{"scenarios": genScen, "schedules": genSched, "with_more_than_one_outcome": genColliding, "truncated": genTruncated, "rule": "every unordered pair of the per-type single-key alphabets (pairs.go), one command per thread on the same key, from each seed state; pairs of two read-only commands skipped"},
+		"generated_pairs":       map[string]interface{}{"scenarios": genScen, "schedules": genSched, "with_more_than_one_outcome": genColliding, "truncated": genTruncated, "rule": genRule(prop)},
 		"lock_audit_runs":       auditRuns,
 		"lock_audit_with_locks": auditLocked,
 		"race_pass_ran":         raceRan,
